@@ -47,6 +47,9 @@ var regOps = []regOp{
 	{"reg(d1,e,20m)", 1, "e", 1200, 0},
 	{"clock+45m", -1, "", 0, 45 * time.Minute},
 	{"clock+100m", -1, "", 0, 100 * time.Minute},
+	// positions inside the very second a 30-minute registration expires in (the clock starts at a fraction of a second)
+	{"clock+30m-500ms", -1, "", 0, 30*time.Minute - 500*time.Millisecond},
+	{"clock+30m+500ms", -1, "", 0, 30*time.Minute + 500*time.Millisecond},
 }
 
 func regAddrs(name string) []protocol.RvTO2Addr {
@@ -97,7 +100,7 @@ func sqliteRegistrations(depth int) {
 		defer func() { _ = db.Close(); _ = os.Remove(path) }()
 		h := fdohttp.Handler{Tokens: db, TO0Responder: &fdo.TO0Server{Session: db, RVBlobs: db}, TO1Responder: &fdo.TO1Server{Session: db, RVBlobs: db}}
 		wire := &lab.Wire{H: h}
-		now = time.Unix(1_900_000_000, 0)
+		now = time.Unix(1_900_000_000, 400_000_000)
 		model := [2]regModel{}
 		var hist []string
 		for _, i := range seq {
@@ -125,12 +128,16 @@ func sqliteRegistrations(depth int) {
 			blob, err := d.TO1(ctx, wire.Transport())
 			r.Transitions.Add(1)
 			m := model[di]
-			live := m.ok && !now.After(m.exp)
+			// the store keeps whole seconds: between the truncated and the exact expiry instant either answer is accepted
+			live := m.ok && !now.After(time.Unix(m.exp.Unix(), 0))
+			dead := !m.ok || now.After(m.exp)
 			repl := map[string]any{"layer": "sqlite-registrations", "history": hist, "device": di}
 			switch {
+			case !live && !dead:
+				r.Add("sqlite_reg_probes_inside_the_truncated_second", 1)
 			case live && err != nil:
 				r.Violation("sqlite-reg:registered-but-refused", fmt.Sprintf("history %v: device %d is registered (address %q) until %d s after now, yet TO1 fails: %v", hist, di, m.addr, int(m.exp.Sub(now).Seconds()), err), repl)
-			case !live && err == nil:
+			case dead && err == nil:
 				r.Violation("sqlite-reg:released-after-expiry", fmt.Sprintf("history %v: device %d has no live registration (registered=%v, expired %d s ago), yet TO1 released a redirect", hist, di, m.ok, int(now.Sub(m.exp).Seconds())), repl)
 			case live:
 				got := ""
